@@ -2,4 +2,4 @@ package main
 
 import "github.com/benhoyt/goawk/verifharness/c11"
 
-func init() { props["C11"] = &Prop{Replay: c11.Replay, Record: c11.Record} }
+func init() { props["C11"] = &Prop{Replay: c11.Replay, Record: c11.Record, Finish: c11.Finish} }
